@@ -172,12 +172,42 @@ func runMem(c Case, tr *Tracer) {
 		case 10: // the caller keeps the lists / byte fields of a decoded PDU and decodes the next frame into the same object
 			var decs []*liveResult
 			for _, lr := range live {
-				if lr.kind == "decode" && lr.pdu != nil {
+				if lr.kind == "decode" && lr.pdu != nil && hasListField(lr.tn) {
 					decs = append(decs, lr)
 				}
 			}
 			if len(decs) == 0 {
-				continue
+				// decode a PDU with a destination list first
+				tn := listTypes()[rr.Intn(len(listTypes()))]
+				a := defaultAssign(rr, tn, true)
+				for _, f := range layouts[tn].Fields {
+					if f.K == "L" {
+						l := make([][]byte, 2+rr.Intn(4))
+						for i := range l {
+							l[i] = nulFree(rr, 1+rr.Intn(f.W))
+						}
+						a[f.N] = fval{list: l}
+					}
+				}
+				fixCounts(tn, a)
+				img, err := build(tn, a).IEncode()
+				if err != nil {
+					continue
+				}
+				iid := nextIn
+				nextIn++
+				emit(Ev{"ev": "NewInput", "i": iid}, "NewInput")
+				p := ctors[tn]()
+				if p.IDecode(append([]byte{}, img...)) != nil {
+					continue
+				}
+				id := nextID
+				nextID++
+				lr := &liveResult{id: id, kind: "decode", tn: tn, pdu: p}
+				lr.read = func() string { return snapJSON(project(tn, lr.pdu)) }
+				add(lr)
+				emit(Ev{"ev": "Decode", "r": id, "i": iid, "type": tn, "same": true}, "Decode")
+				decs = append(decs, lr)
 			}
 			old := decs[rr.Intn(len(decs))]
 			root := reflect.ValueOf(old.pdu).Elem()
@@ -573,6 +603,28 @@ func strBytes(s string) []byte {
 		return nil
 	}
 	return unsafe.Slice((*byte)(unsafe.Pointer((*reflect.StringHeader)(unsafe.Pointer(&s)).Data)), len(s))
+}
+
+func hasListField(tn string) bool {
+	for _, f := range layouts[tn].Fields {
+		if f.K == "L" {
+			return true
+		}
+	}
+	return false
+}
+
+var listTypesCache []string
+
+func listTypes() []string {
+	if listTypesCache == nil {
+		for _, tn := range typeNames {
+			if hasListField(tn) {
+				listTypesCache = append(listTypesCache, tn)
+			}
+		}
+	}
+	return listTypesCache
 }
 
 func randText(r *rand.Rand, n int) string {
